@@ -826,6 +826,17 @@ pub fn reseal(b: &mut Block, signer: Option<u64>, recompute_root: bool) {
     b.generate_hash();
 }
 
+/// a lite-block placeholder: SPV-typed, no slips, its merkle leaf is the first half of its signature field — whatever the
+/// sender puts there
+pub fn placeholder(leaf: SaitoHash, replacements: u32) -> Transaction {
+    let mut ph = Transaction::default();
+    ph.transaction_type = TransactionType::SPV;
+    ph.txs_replacements = replacements;
+    ph.signature[..32].copy_from_slice(&leaf);
+    ph.hash_for_signature = Some(leaf);
+    ph
+}
+
 /// what a peer's block looks like after the wire: decoded, not yet generated
 pub fn wire(b: &Block) -> Option<Block> {
     Block::deserialize_from_net(&b.serialize_for_net(BlockType::Full)).ok()
@@ -1084,12 +1095,14 @@ pub struct Flags {
     pub win: u8,
     /// verify_tx itself drops a privileged-type transaction (a tree may refuse them at the pool only)
     pub vdrop: u8,
+    /// a full node refuses a block that holds an SPV-typed placeholder, whatever its replacement count
+    pub nospv: u8,
 }
 impl Flags {
     pub fn line(&self) -> String {
         format!(
-            "flags txv={} dup={} own={} stake={} spv={} fee={} pool={} merkle={} loc={} win={} vdrop={}",
-            self.txv, self.dup, self.own, self.stake, self.spv, self.fee, self.pool, self.merkle, self.loc, self.win, self.vdrop
+            "flags txv={} dup={} own={} stake={} spv={} fee={} pool={} merkle={} loc={} win={} vdrop={} nospv={}",
+            self.txv, self.dup, self.own, self.stake, self.spv, self.fee, self.pool, self.merkle, self.loc, self.win, self.vdrop, self.nospv
         )
     }
 }
@@ -1258,6 +1271,15 @@ pub async fn calibrate() -> Flags {
         let cand = wire(&b).unwrap();
         let o = run_block(&scn, &cand, &[1, 2, 3], "", &mut ids).await;
         fl.merkle = (o.val == Some(false)) as u8;
+    }
+    // nospv: a value-less placeholder with replacement count 1 added to an honest block, root recomputed, re-signed by the creator
+    {
+        let mut b = assemble(&mut scn, &node, &base, &base, true, 6).await;
+        b.transactions.insert(2, placeholder([0x5a; 32], 1));
+        reseal(&mut b, Some(6), true);
+        let cand = wire(&b).unwrap();
+        let o = run_block(&scn, &cand, &[1, 2, 3], "", &mut ids).await;
+        fl.nospv = (o.val == Some(false)) as u8;
     }
     // loc: the transaction hash (merkle leaf) changes when an input is re-pointed to another output
     {
@@ -1640,6 +1662,17 @@ async fn run_c06(out: &mut Out, scn: &mut Scn, base: &[Transaction], name: &str,
                 b.transactions.insert(i, t);
                 edits.push((format!("add-{}", i), b));
             }
+            // the transaction swapped for a placeholder that hashes to the SAME merkle leaf (root, header, signature and block
+            // hash stay what they were), with replacement count 1 and 0; and a placeholder simply added (root recomputed)
+            for rc in [1u32, 0] {
+                let mut b = orig.clone();
+                let leaf = b.transactions[i].hash_for_signature.unwrap_or([0; 32]);
+                b.transactions[i] = placeholder(leaf, rc);
+                edits.push((format!("spvswap{}-{}", rc, i), b));
+            }
+            let mut b = orig.clone();
+            b.transactions.insert(i, placeholder([0x40 + i as u8; 32], 1));
+            edits.push((format!("spvadd-{}", i), b));
             // same signed content, another output of the same owner/amount/index spent (location is not signed)
             let mut b = orig.clone();
             let cur: Vec<SaitoUTXOSetKey> = base.iter().flat_map(|t| t.from.iter().map(|x| x.get_utxoset_key())).collect();
@@ -1755,6 +1788,17 @@ async fn run_c06(out: &mut Out, scn: &mut Scn, base: &[Transaction], name: &str,
                         serde_json::json!({"scenario": name, "gt": gt, "edit": en, "seal": format!("{:?}", seal), "op": o.op}),
                     );
                 }
+                let signed_bytes = |bl: &Block| -> Vec<(u8, Vec<u8>)> { bl.transactions.iter().map(|t| (t.transaction_type as u8, t.serialize_for_signature())).collect() };
+                let content_differs = signed_bytes(&g) != signed_bytes(&orig_w);
+                if committed && same && (cls != "same" || content_differs) {
+                    // the header commits to these leaves, yet the list is not the signed one: a leaf that is not a hash of content
+                    let cls = if cls == "same" { "same-leaves-other-content" } else { cls };
+                    out.monitor_fail(
+                        &format!("C06/same-hash-different-transaction-list-accepted/{}", cls),
+                        &format!("Block::validate accepted, under the hash of the signed block, a block whose transaction list differs from the signed one although it hashes to the same merkle root (add_block: {})", o.add),
+                        serde_json::json!({"scenario": name, "gt": gt, "edit": en, "seal": format!("{:?}", seal), "op": o.op}),
+                    );
+                }
                 if !verify_signature(&g.pre_hash, &g.signature, &g.creator) {
                     out.monitor_fail(
                         &format!("C06/accepted-block-not-signed-by-its-stated-creator/{}", if name == "midchain" { "node-without-block-1" } else { "node-with-full-chain" }),
@@ -1762,7 +1806,7 @@ async fn run_c06(out: &mut Out, scn: &mut Scn, base: &[Transaction], name: &str,
                         serde_json::json!({"scenario": name, "gt": gt, "edit": en, "seal": format!("{:?}", seal), "op": o.op}),
                     );
                 }
-                if same && cls == "same" {
+                if same && cls == "same" && !content_differs {
                     let ek: Vec<Vec<SaitoUTXOSetKey>> = g.transactions.iter().map(|t| t.from.iter().map(|s| s.get_utxoset_key()).collect()).collect();
                     if ek != orig_keys {
                         out.monitor_fail(
